@@ -516,7 +516,7 @@ def run(ctx):
             fails.append((f, res))
         for d in res.get("dis", []):
             dis.append((d, res))
-        if sidx == 0 and res.get("texts"):
+        if not samples and res.get("texts"):
             samples = [t for _, t in res["texts"][:3]]
     for _ in range(10 if not ctx.thorough else 100):
         for kind, info in dot_type_session(ctx, exe, r, stats):
